@@ -168,7 +168,8 @@ use portmatching::{ConditionedPredicate, Constraint, ConstraintTree, ToConstrain
 use std::collections::BTreeSet;
 
 thread_local! {
-    /// 0 first-only, 1 transitive mutex, 2 pairwise mutex, 3 powerset (<= 4 constraints)
+    /// 0 first-only, 1 transitive mutex, 2 pairwise mutex, 3 powerset (<= 4 constraints),
+    /// 4 root labels for trivially true constraints + transitive mutex
     pub static STRATEGY: RefCell<usize> = const { RefCell::new(0) };
 }
 
@@ -240,9 +241,22 @@ impl ToConstraintsTree<usize> for TPred {
             }
             1 => ConstraintTree::with_transitive_mutex(sorted, tcons_mutex),
             2 => ConstraintTree::with_pairwise_mutex(sorted, tcons_mutex),
-            _ => {
+            3 => {
                 sorted.truncate(4);
                 ConstraintTree::with_powerset(sorted)
+            }
+            _ => {
+                // trivially true constraints label the root only; the others form a
+                // transitive-mutex tree (deterministic root)
+                let (trues, rest): (Vec<_>, Vec<_>) = sorted
+                    .into_iter()
+                    .partition(|(c, _)| matches!(c.predicate(), TPred::True(_)));
+                let mut t = ConstraintTree::with_transitive_mutex(rest, tcons_mutex);
+                t.set_make_det(true);
+                for (_, i) in trues {
+                    t.add_constraint_index(t.root(), i);
+                }
+                t
             }
         }
     }
